@@ -78,12 +78,16 @@ class TimeRecurrenceParser(object):
             if "intv" in result_map:
                 duration = self.duration_parser.parse(
                     result_map["intv"])
-            return data.TimeRecurrence(
-                repetitions=repetitions,
-                start_point=start_point,
-                end_point=end_point,
-                duration=duration
-            )
+            try:
+                return data.TimeRecurrence(
+                    repetitions=repetitions,
+                    start_point=start_point,
+                    end_point=end_point,
+                    duration=duration
+                )
+            except OverflowError:
+                # Numbers too large to do date-time arithmetic with.
+                raise ISO8601SyntaxError("recurrence", expression)
         raise ISO8601SyntaxError("recurrence", expression)
 
     __call__ = parse
